@@ -39,6 +39,7 @@ BOUNDS = {
 NAME_GRAMMARS = [
     ("user-rule-SKIP-with-comment", 'COMMENT = _{ "#" }\nSKIP = { "a" }\nr = { SKIP ~ SKIP }\n', ("r", "SKIP")),
     ("user-rule-SKIP-with-ws-choice", 'WHITESPACE = _{ " " | "\\t" }\nSKIP = { "a" }\nr = { SKIP ~ "b" }\n', ("r", "SKIP")),
+    ("user-rule-SKIP-with-skip-idiom", 'WHITESPACE = _{ " " }\nSKIP = { "s" }\ntext = { (!"b" ~ ANY)* }\nstmt = { (SKIP | text) ~ "b" }\nq = !{ (!("b" | "ab") ~ ANY)* ~ "b"? }\n', ("text", "stmt", "q"), "abs ", 4),
     ("tagged-group-plus", 'n = { "a" }\nr = { #tt = (n)+ }\nq = { (#tt = n)+ ~ "b" }\n', ("r", "q")),
     ("builtins", 'r = { ASCII_HEX_DIGIT+ ~ NEWLINE? ~ ASCII_ALPHA* }\nq = { (ASCII_DIGIT | "a" | "b")+ }\n', ("r", "q")),
     # recursive rule graphs: passes that follow or inline references must terminate and keep the language
